@@ -112,6 +112,23 @@ def identity_decorator(ns, iface):
     return d
 
 
+def edit_decorator(ns, iface):
+    """a view decorator that edits one header of what the next layer returns"""
+    if iface == "wsgi":
+        @ns.decorator
+        def d(request, next_call):
+            response = next_call(request)
+            response.headers["x-edited"] = "yes"
+            return response
+    else:
+        @ns.decorator
+        async def d(request, next_call):
+            response = await next_call(request)
+            response.headers["x-edited"] = "yes"
+            return response
+    return d
+
+
 def folded_equal(bare, wrapped):
     """True if `wrapped` equals `bare` after comma-folding repeated header names; returns the set of folded names"""
     def fold(h):
@@ -174,6 +191,10 @@ def compare(ctx, iface, recipe, wrapper, depth, req_desc, bare, wrapped, count, 
             bh, wh = [(k, v) for k, v in bh if k != "vary"], [(k, v) for k, v in wh if k != "vary"]
         else:
             bh = sorted([(k, v) for k, v in bh if k != "vary"] + [("vary", ", ".join(old + ["Accept"]))])
+    elif edited and wrapper == "decorator-edit" and wrapped["status"] in (400, 416) and "File" in str(kind):
+        # a decorator edits the response OBJECT; a file response answers a bad Range with the error's own headers, not the object's
+        ctx.count("edit-not-visible-on-a-range-error-answer(not judged)")
+        bh, wh = [(k, v) for k, v in bh if k != "x-edited"], [(k, v) for k, v in wh if k != "x-edited"]
     elif edited:
         ctx.mon("edit-one-header")
         bh = sorted([(k, v) for k, v in bh if k != "x-edited"] + [("x-edited", "yes")])
@@ -387,17 +408,23 @@ def run_case(ctx, recipe, req_desc, rng):
             return counting(iface, recipes.app_from(ns, recipe), counter)
         with drivers.fresh_sse_pool():
             bare = obs(iface, inner({"n": 0}), req)
-            for wrapper in ("middleware", "edit", "append", "decorator"):
-                if wrapper == "decorator" and recipe.get("app") != "view":
+            for wrapper in ("middleware", "edit", "append", "decorator", "decorator-edit"):
+                if wrapper.startswith("decorator") and recipe.get("app") != "view":
                     continue
                 depth = rng.randrange(1, 4) if wrapper not in ("edit", "append") else 1
                 counter = {"n": 0}
-                if wrapper == "decorator":
+                if wrapper.startswith("decorator"):
                     vmarks = {}
                     view = recipes.app_from(ns, recipe, vmarks)  # counts calls of the inner view itself
                     d = identity_decorator(ns, iface)
-                    for _ in range(depth):
-                        view = d(view)
+                    if wrapper == "decorator-edit":
+                        # a stack of decorators in which ONE layer (the innermost, a middle one or the outermost) edits a header
+                        at = rng.randrange(depth)
+                        for k in range(depth):
+                            view = (edit_decorator(ns, iface) if k == at else d)(view)
+                    else:
+                        for _ in range(depth):
+                            view = d(view)
                     app = ns.request_response(view)
                 else:
                     app = inner(counter)
@@ -405,9 +432,9 @@ def run_case(ctx, recipe, req_desc, rng):
                     for _ in range(depth):
                         app = m(app)
                 wrapped = obs(iface, app, req)
-                if wrapper == "decorator":
+                if wrapper.startswith("decorator"):
                     counter = {"n": vmarks.get("invoked", 0)}
-                compare(ctx, iface, recipe, wrapper, depth, req_desc, bare, wrapped, counter, edited={"edit": True, "append": "append"}.get(wrapper, False))
+                compare(ctx, iface, recipe, wrapper, depth, req_desc, bare, wrapped, counter, edited={"edit": True, "append": "append", "decorator-edit": True}.get(wrapper, False))
         hs = bare["headers"] or []
         names = [k for k, _ in hs]
         if len(names) != len(set(names)) or bare["exc"] is not None or bare["body"] == b"" or len([e for e in bare["events"] if (e[0] == "item" if iface == "wsgi" else e.get("type") == "http.response.body")]) >= 2:
